@@ -92,12 +92,13 @@ Holds == Frame(c.h, Roots, Run.h, Roots)
 \* the operations that work on copies never reach the caller's objects
 CopyingOpsFrame == c.op \in {"merge_config", "strip_unknown", "get_defaults", "format_help"} => (Holds /\ Run.ok)
 \* validate / dump / instantiate_classes reach the caller's objects only below a tuple (the clone shares tuples)
-OnlyBelowTuple == c.op \in {"validate", "dump", "save", "instantiate_classes", "parse_args"} => Touched(c.h, Run.h) \subseteq BelowTuple(c.h)
+OnlyBelowTuple == (c.op \in {"validate", "dump", "save", "instantiate_classes", "parse_args"} \/ (CopyOnEntry /\ c.op = "parse_object"))
+                  => Touched(c.h, Run.h) \subseteq BelowTuple(c.h)
 \* ... and on a configuration whose values are all adapted already (what an earlier parse returned) validate and
 \* instantiate_classes change no VALUE; the only thing they can do is replace a set that sits in a list/dict below a
 \* tuple by an equal new set (found by TLC at Depth 3: Tuple[int, List[Set[int]]]; confirmed on the real code)
 AdaptedIsSafe ==
-  (c.op \in {"validate", "instantiate_classes", "parse_args"} /\ c.fl = "adapted") =>
+  ((c.op \in {"validate", "instantiate_classes", "parse_args"} \/ (CopyOnEntry /\ c.op = "parse_object")) /\ c.fl = "adapted") =>
      /\ ValueFrame(c.h, Roots, Run.h, Roots)
      /\ Holds \/ \E id \in BelowTuple(c.h) : c.h[id].t = "set"
 \* dump is NOT value-safe even then: serialisation writes the serialised form into a list/dict below a tuple of the
